@@ -77,7 +77,8 @@ AttrOf(kd, k) ==
     [] kd = "polyline" -> [pts |-> << <<k, 2>>, <<k + 3, 2>>, <<k + 3, 6>>, <<k - 1, 7>> >>]
     [] kd = "polygon"  -> [pts |-> << <<1, k>>, <<5, k + 1>>, <<3, k + 4>> >>]
     [] kd = "rect"     -> [x |-> k, y |-> 2*k - 3, w |-> 4 + k, h |-> 3]
-    [] kd = "rrect"    -> [x |-> k, y |-> 2*k - 3, w |-> 6 + k, h |-> 5, rx |-> 1, ry |-> (IF k % 2 = 0 THEN 2 ELSE 0)]   \* ry = 0: attribute absent (defaults to rx)
+    [] kd = "rrect"    -> [x |-> k, y |-> 2*k - 3, w |-> 6 + k, h |-> 5,                  \* 0 = attribute absent: the other one is used for both
+                           rx |-> (IF k % 3 = 2 THEN 0 ELSE 1), ry |-> (IF k % 3 = 1 THEN 0 ELSE 2)]
     [] kd = "circle"   -> [cx |-> k, cy |-> 3 - k, r |-> 2 + k]
     [] kd = "ellipse"  -> [cx |-> k, cy |-> 3 - k, rx |-> 2 + k, ry |-> 3]
     [] OTHER           -> [d |-> k % 2]
@@ -89,7 +90,7 @@ ShapeSegs(kd, k) ==
     [] kd = "polyline" -> Polyline(a.pts, FALSE)
     [] kd = "polygon"  -> Polyline(a.pts, TRUE)
     [] kd = "rect"     -> Polyline(<< <<a.x, a.y>>, <<a.x + a.w, a.y>>, <<a.x + a.w, a.y + a.h>>, <<a.x, a.y + a.h>> >>, TRUE)
-    [] kd = "rrect"    -> LET rx == a.rx
+    [] kd = "rrect"    -> LET rx == IF a.rx = 0 THEN a.ry ELSE a.rx
                               ry == IF a.ry = 0 THEN a.rx ELSE a.ry
                               r == <<rx, ry>>
                               Arc(p, q) == <<"A", p, r, 0, 0, 1, q>>
